@@ -100,6 +100,9 @@ def kwargs_menu(name, shape):
         for axes in axes_opts:
             k = 2 if axes is None and two else (nd if axes is None else len(axes))
             s_opts = [None, tuple([3, 4, 2][:k]), tuple([2, 6, 5][:k])]
+            if axes is None and not two and nd >= 2:
+                # s shorter than the rank and no axes: the LAST len(s) axes are transformed
+                s_opts += [(3,), tuple([2, 5][:nd - 1])]
             for s in s_opts:
                 for norm in norms:
                     kw = {}
@@ -110,6 +113,8 @@ def kwargs_menu(name, shape):
                     if norm:
                         kw["norm"] = norm
                     out.append(kw)
+                    if s is not None and not norm:
+                        out.append(dict(kw, _positional=True))       # fn(x, s[, axes]) with positional arguments
     return out
 
 
@@ -127,6 +132,9 @@ def transformed_axes(name, kw, nd):
 
 def call(fn, x, kw):
     try:
+        if kw.get("_positional"):
+            pos = [kw["s"]] + ([kw["axes"]] if "axes" in kw else [])
+            return fn(x, *pos, **{k: v for k, v in kw.items() if k not in ("s", "axes", "_positional")}), None
         return fn(x, **kw), None
     except Exception as e:
         return None, e
